@@ -50,7 +50,18 @@ struct MEntry {
     key: [u8; 32],
 }
 
+/// per-entry facts the batch model needs, memoised (a queue is usually flushed several times)
+#[derive(Clone, Copy)]
+struct EntryFacts {
+    s_canonical: bool,
+    s_rejected: bool,
+    r_decodes: bool,
+    in_domain_points: bool,
+    valid: bool,
+}
+
 pub struct ModelW {
+    facts: BTreeMap<Vec<u8>, EntryFacts>,
     x: Vec<Option<MX>>,
     shared: BTreeMap<(u8, u8), [u8; 32]>,
     s: Vec<Option<MSigner>>,
@@ -113,8 +124,33 @@ fn m_verify(mode: u8, key: &[u8], m: &[u8], sig: &[u8], ctx: Option<&[u8]>, chos
 }
 
 impl ModelW {
+    fn entry_facts(&mut self, e: &MEntry) -> EntryFacts {
+        let mut k = Vec::with_capacity(96 + e.m.len());
+        k.extend_from_slice(&e.key);
+        k.extend_from_slice(&e.sig);
+        k.extend_from_slice(&e.m);
+        if let Some(f) = self.facts.get(&k) {
+            return *f;
+        }
+        let a = Pt::decode(&e.key);
+        let rb = arr32(&e.sig[..32]);
+        let sb = arr32(&e.sig[32..]);
+        let r = Pt::decode(&rb);
+        let s_canonical = refmodel::Sc::is_canonical_bytes(&sb);
+        let f = EntryFacts {
+            s_canonical,
+            s_rejected: if LEGACY { sb[31] & 224 != 0 } else { !s_canonical },
+            r_decodes: r.is_some(),
+            in_domain_points: a.map(|a| a.encode() == e.key && a.is_torsion_free()).unwrap_or(false)
+                && r.map(|r| r.encode() == rb && r.is_torsion_free()).unwrap_or(false),
+            valid: eddsa::verify(&mut RealSha512, &e.key, &e.m, &e.sig, None, VerifyMode { strict: false, legacy: false }).ok(),
+        };
+        self.facts.insert(k, f);
+        f
+    }
+
     pub fn new() -> ModelW {
-        ModelW { x: vec![None; NPARTY], shared: BTreeMap::new(), s: vec![None; NPARTY], q: vec![Vec::new(); NPARTY] }
+        ModelW { facts: BTreeMap::new(), x: vec![None; NPARTY], shared: BTreeMap::new(), s: vec![None; NPARTY], q: vec![Vec::new(); NPARTY] }
     }
 
     pub fn apply(&mut self, st: &Step) -> Out {
@@ -330,18 +366,18 @@ impl ModelW {
                         return Out::Skip; // nothing mismatched: not executed (state untouched)
                     }
                 }
-                let adaptive_ok = *var == 5
-                    && entries.len() >= 2
-                    && entries.iter().all(|e| {
-                        // inside the property's domain (canonical, torsion-free key and R) and individually valid
-                        let a = Pt::decode(&e.key);
-                        let rb = arr32(&e.sig[..32]);
-                        let r = Pt::decode(&rb);
-                        refmodel::Sc::is_canonical_bytes(&arr32(&e.sig[32..]))
-                            && a.map(|a| a.encode() == e.key && a.is_torsion_free()).unwrap_or(false)
-                            && r.map(|r| r.encode() == rb && r.is_torsion_free()).unwrap_or(false)
-                            && eddsa::verify(&mut RealSha512, &e.key, &e.m, &e.sig, None, VerifyMode { strict: false, legacy: false }).ok()
-                    });
+                let adaptive_ok = *var == 5 && entries.len() >= 2 && {
+                    // inside the property's domain (canonical, torsion-free key and R) and individually valid
+                    let mut ok = true;
+                    for e in &entries {
+                        let f = self.entry_facts(e);
+                        if !(f.s_canonical && f.in_domain_points && f.valid) {
+                            ok = false;
+                            break;
+                        }
+                    }
+                    ok
+                };
                 if *var == 5 && !(adaptive_ok && *var == 5) {
                     return Out::Skip; // the attack needs an accepted batch of at least two entries (state untouched)
                 }
@@ -366,23 +402,14 @@ impl ModelW {
                 let mut must_err = false;
                 let mut all_ok = true;
                 for e in &entries {
-                    let a = Pt::decode(&e.key).unwrap();
-                    let rb = arr32(&e.sig[..32]);
-                    let sb = arr32(&e.sig[32..]);
-                    let r = Pt::decode(&rb);
-                    let key_canon = a.encode() == e.key;
-                    let r_canon = r.map(|r| r.encode() == rb).unwrap_or(false);
-                    let s_rejected = if LEGACY { sb[31] & 224 != 0 } else { !refmodel::Sc::is_canonical_bytes(&sb) };
-                    if r.is_none() || s_rejected {
+                    let f = self.entry_facts(e);
+                    if !f.r_decodes || f.s_rejected {
                         must_err = true;
                     }
-                    if !refmodel::Sc::is_canonical_bytes(&sb) {
+                    if !f.s_canonical || !f.in_domain_points {
                         in_domain = false;
                     }
-                    if !(key_canon && r_canon && a.is_torsion_free() && r.map(|r| r.is_torsion_free()).unwrap_or(false)) {
-                        in_domain = false;
-                    }
-                    if !eddsa::verify(&mut RealSha512, &e.key, &e.m, &e.sig, None, VerifyMode { strict: false, legacy: false }).ok() {
+                    if !f.valid {
                         all_ok = false;
                     }
                 }
